@@ -52,12 +52,15 @@ Open Scope string_scope.
 Definition ex_tabs : attr_tables := mk_tabs
   [ ("byte_order", QOneOf ["BigEndian"; "LittleEndian"; "Null"]); ("maximum_bits", QIntConst);
     ("is_signed", QBoolConst); ("requires", QBool); ("text_output", QOneOf ["Emit"; "Skip"]);
-    ("fixed_size_in_bits", QIntConst) ]%string
+    ("fixed_size_in_bits", QIntConst); ("addressable_unit_size", QIntConst); ("is_integer", QBoolConst);
+    ("static_requirements", QBool) ]%string
   [ (ScModule, [("byte_order", true)]); (ScStruct, [("byte_order", true); ("requires", false); ("fixed_size_in_bits", false)]);
     (ScBits, [("requires", false); ("fixed_size_in_bits", false)]);
     (ScEnum, [("maximum_bits", false); ("is_signed", false)]);
     (ScPhysField, [("byte_order", false); ("requires", false); ("text_output", false)]);
-    (ScVirtField, [("requires", false); ("text_output", false)]) ]%string.
+    (ScVirtField, [("requires", false); ("text_output", false)]);
+    (ScExternal, [("addressable_unit_size", false); ("fixed_size_in_bits", false); ("is_integer", false);
+                  ("static_requirements", false)]) ]%string.
 
 Definition ex_T : tables := mk_tables ex_tabs ["class"; "int"; "NULL"]%string prelude_req.
 
@@ -76,16 +79,44 @@ Definition ex_M : module := mk_module
         fld "fl" 9 8 (mk_ftype (RStruct 0) None []) (Some BBig) [mk_attr "byte_order" false (AVString "BigEndian")];
         fld "arr" 17 8 (mk_ftype (RPre PUInt) (Some 16) [LConst 2; LConst 2]) None [];
         fld "x" 25 4 (mk_ftype (RPre PFloat) None []) None [];
+        fld "w" 29 4 (mk_ftype (RExt 0) None []) None [];
+        fld "k" 33 2 (mk_ftype (RExt 1) None []) (Some BBig) [mk_attr "byte_order" false (AVString "BigEndian")];
         mk_field "v" true None None 0 0 (mk_ftype (RPre PUInt) None []) None [mk_attr "requires" false (AVBool false)] ]
       [] [(RPre PUInt, Some 8); (REnum 0, None)] ]
-  ["cpp"; "xyz"] ["xyz"].
+  ["cpp"; "xyz"] ["xyz"]
+  [ (* external Word: [addressable_unit_size: 8] [fixed_size_in_bits: 32] [static_requirements: 8..32 bits] *)
+    mk_extdef "Word" (Some 8) (Some 32) (Some (range_req 8 32))
+      [mk_attr "addressable_unit_size" false (AVInt true); mk_attr "fixed_size_in_bits" false (AVInt true);
+       mk_attr "static_requirements" false (AVBool false)];
+    (* external Nibbles: [addressable_unit_size: 1] [is_integer: false] *)
+    mk_extdef "Nibbles" (Some 1) None None
+      [mk_attr "addressable_unit_size" false (AVInt true); mk_attr "is_integer" false (AVBool true)] ].
 
 (* the same with a 65-bit bits type *)
 Definition ex_M_bad : module := mk_module (m_attrs ex_M) (m_enums ex_M)
   [ mk_struct "Flags" false 1 [Some BLittle; None] None
       [ fld "f0" 0 1 (mk_ftype (RPre PFlag) None []) None [];
         fld "u" 1 64 (mk_ftype (RPre PUInt) None []) None [] ] [] [] ]
-  ["cpp"] [].
+  ["cpp"] [] [].
+
+(* user-defined externals, one rule broken at a time: no addressable unit; a unit other than 1 / 8;
+   a field narrower than the fixed size; a width outside the external's static_requirements; a
+   dynamically sized field of an external that requires a static size; a byte-oriented external in bits;
+   [is_integer] with a non-constant value *)
+Definition ext_word (u : option Z) (fx : option Z) : ext_def :=
+  mk_extdef "Word" u fx (Some (range_req 8 32)) [mk_attr "addressable_unit_size" false (AVInt true)].
+Definition ex_M_ext (x : ext_def) (unit : Z) (f : field) : module :=
+  mk_module [] [] [mk_struct "S" false unit [None; None] None [f] [] []] ["cpp"] [] [x].
+Definition ex_M_ext_ok : module := ex_M_ext (ext_word (Some 8) (Some 32)) 8 (fld "w" 0 4 (mk_ftype (RExt 0) None []) None []).
+Definition ex_M_ext_bad : list module :=
+  [ ex_M_ext (ext_word None (Some 32)) 8 (fld "w" 0 4 (mk_ftype (RExt 0) None []) None []);
+    ex_M_ext (ext_word (Some 4) (Some 32)) 8 (fld "w" 0 4 (mk_ftype (RExt 0) None []) None []);
+    ex_M_ext (ext_word (Some 8) (Some 32)) 8 (fld "w" 0 3 (mk_ftype (RExt 0) None []) None []);
+    ex_M_ext (ext_word (Some 8) None) 8 (fld "w" 0 5 (mk_ftype (RExt 0) None []) None []);
+    ex_M_ext (ext_word (Some 8) None) 8 (mk_field "w" false (Some 0) None 0 255 (mk_ftype (RExt 0) None []) None []);
+    ex_M_ext (ext_word (Some 8) (Some 32)) 1 (fld "w" 0 32 (mk_ftype (RExt 0) None []) None []);
+    ex_M_ext (mk_extdef "Word" (Some 8) None None [mk_attr "addressable_unit_size" false (AVInt true); mk_attr "is_integer" false (AVBool false)])
+             8 (fld "w" 0 4 (mk_ftype (RExt 0) None []) None []) ].
 
 (* harness: verdict of the mirror and the side condition of the theorem *)
 Definition run_layout2 (T : tables) (M : module) : bool * bool := (check_layout T M, units_okb M).
